@@ -73,6 +73,35 @@ def gen(rng, tier):
             case["hist"] = [[q1], ["heur", "10"], [q2], ["heur", "10"]] + [[x] for x in QUERIES[:7]]
             yield case
             continue
+        if k % 10 == 2:
+            # mutator stream: the problem data are changed through the object's own API AFTER queries were answered (new time grid,
+            # other fleet size / sequence length, another arc, another node); later answers must be those of the changed problem
+            case = FU.gen_form_case(rng, tier, heur_p=0.0, nmax=4)
+            form = case["form"]
+            names = [nd["name"] for nd in case["spec"]["nodes"]]
+            muts = []
+            for _ in range(rng.randint(1, 2)):
+                kind = rng.choice(["addarc", "addarc", "addnode"] + (["tp"] if form == "arc" else []) + (["setV", "setL"] if form == "seq" else []))
+                if kind == "tp":
+                    muts.append(["tp", VU.gen_grid(rng, case["spec"], tier)])
+                elif kind == "setV":
+                    muts.append(["setV", rng.choice([0, 1, 2, 3])])
+                elif kind == "setL":
+                    muts.append(["setL", rng.choice([3, 4, 5])])
+                elif kind == "addarc":
+                    muts.append(["addarc", rng.choice(names), rng.choice(names), fs(Fraction(rng.randint(0, 6), 2)), fs(Fraction(rng.randint(-4, 8), 2))])
+                else:
+                    nm = f"z{len(muts)}"
+                    lo = Fraction(rng.randint(0, 6), 2)
+                    muts.append(["addnode", nm, "0", fs(lo), rng.choice(["inf", fs(lo + 2)])])
+                    muts.append(["addarc", names[0], nm, "1", "1"])
+                    muts.append(["addarc", nm, names[0], "1", "1"])
+                    names.append(nm)
+            pre = [[rng.choice(QUERIES[:7])] for _ in range(rng.randint(1, 3))]
+            case["hist"] = pre + muts + [[x] for x in rng.sample(QUERIES[:7], 3)] + ([["heur", "10"], ["n"]] if rng.random() < 0.4 else [])
+            case["mutators"] = True
+            yield case
+            continue
         if k % 3 == 0:
             spec, info = VU.gen_planted(rng, ncust=rng.randint(1, 3), extra_arc_p=rng.choice([0.0, 0.2, 0.5]), wide=True)
             form = rng.choice(["arc", "path", "seq"])
@@ -111,6 +140,23 @@ def shrink(case):
 from .props_common import tuple_box, query, full_state  # noqa: E402
 
 
+MUTATORS = ("tp", "setV", "setL", "addarc", "addnode")
+FLAG_MODEL_HAS_MUTATORS = True
+
+
+def apply_mutator(o, op):
+    if op[0] == "tp":
+        o.add_time_points([VU.val(t) for t in op[1]])
+    elif op[0] == "setV":
+        o.set_max_vehicles(int(op[1]))
+    elif op[0] == "setL":
+        o.set_max_sequence_length(int(op[1]))
+    elif op[0] == "addarc":
+        o.add_arc(op[1], op[2], VU.val(op[3]), VU.val(op[4]))
+    elif op[0] == "addnode":
+        o.add_node(op[1], VU.val(op[2]), (VU.val(op[3]), VU.val(op[4])))
+
+
 def run_history(case, hist, res=None, check_twice=False):
     o, _ = FU.build_form(case, with_heur=False)
     form = case["form"]
@@ -125,6 +171,12 @@ def run_history(case, hist, res=None, check_twice=False):
                 return o, "heur-raised:" + core.err_kind(e), changed
             g1 = (VU.graph_of(o), len(getattr(o, "routes", [])), getattr(o, "max_vehicles", 0))
             changed = changed or g0 != g1
+        elif op[0] in MUTATORS:
+            changed = True
+            try:
+                apply_mutator(o, op)
+            except Exception as e:  # noqa
+                return o, "mutator-raised:" + core.err_kind(e), changed
         else:
             a = query(o, form, op[0])
             if check_twice and res is not None:
@@ -210,6 +262,8 @@ def correspond_flags(res, drv, case):
     form = case["form"]
     if form not in ("arc", "seq"):
         return
+    if case.get("mutators") and not FLAG_MODEL_HAS_MUTATORS:
+        return
     import random
     rnd = random.Random(case.get("seed", 0))
     o, _ = FU.build_form(case, with_heur=False)
@@ -266,10 +320,32 @@ def correspond_flags(res, drv, case):
                 np.random.seed(case.get("seed", 0))
                 o.make_feasible(VU.val(op[1]))
                 out = ("heur", "ok")
+            elif kind == "tp":
+                ops.append(f"tp {len(op[1])} " + " ".join(op[1]))
+                o.add_time_points([VU.val(t) for t in op[1]])
+                out = ("mut", "done")
+            elif kind == "setV":
+                ops.append(f"setV {int(op[1])}")
+                o.set_max_vehicles(int(op[1]))
+                out = ("mut", "done")
+            elif kind == "setL":
+                ops.append(f"setL {int(op[1])}")
+                o.set_max_sequence_length(int(op[1]))
+                out = ("mut", "done")
+            elif kind == "addarc":
+                ops.append(f"addarc {op[1]} {op[2]} {op[3]} {op[4]}")
+                r = o.add_arc(op[1], op[2], VU.val(op[3]), VU.val(op[4]))
+                out = ("mut", f"done {1 if r else 0}")
+            elif kind == "addnode":
+                ops.append(f"addnode {op[1]} {op[2]} {op[3]} {op[4]}")
+                o.add_node(op[1], VU.val(op[2]), (VU.val(op[3]), VU.val(op[4])))
+                out = ("mut", "done")
             else:
                 continue
         except Exception as e:  # noqa
             out = (kind if kind not in ("qubo_o", "qubo_f") else "qubo", "raised", core.err_kind(e))
+            if kind in MUTATORS:
+                out = ("mutraise", "raised", core.err_kind(e))
         impl.append((out, [int(bool(x)) for x in flags()]))
     if not ops:
         return
@@ -294,7 +370,10 @@ def correspond_flags(res, drv, case):
         if "raised" in tk[:2] or (len(tk) > 1 and tk[1].startswith("err:")):
             res.disagree(what + ": status", "normal return", dig[:80])
             return
-        if out[0] == "n" and int(tk[1]) != out[1]:
+        if out[0] == "mut":
+            if " ".join(tk) != out[1]:
+                res.disagree(what, out[1], " ".join(tk))
+        elif out[0] == "n" and int(tk[1]) != out[1]:
             res.disagree(what, out[1], tk[1])
         elif out[0] == "idx" and (None if tk[1] == "none" else int(tk[1])) != out[1]:
             res.disagree(what, out[1], tk[1])
@@ -365,11 +444,11 @@ def run_case(case, drv):
     hist = case["hist"]
     res.features.append(f"form:{form}")
     # index of the last heuristic run: queries before it are dropped in the twin
-    last = max([i for i, op in enumerate(hist) if op[0] == "heur"], default=-1)
-    twin_hist = [op for i, op in enumerate(hist) if op[0] == "heur" or i > last]
+    last = max([i for i, op in enumerate(hist) if op[0] == "heur" or op[0] in MUTATORS], default=-1)
+    twin_hist = [op for i, op in enumerate(hist) if op[0] == "heur" or op[0] in MUTATORS or i > last]
     oa, sa, changed = run_history(case, hist, res, check_twice=True)
     ob, sb, _ = run_history(case, twin_hist)
-    query_before = any(op[0] != "heur" for op in hist[:max(last, 0)])
+    query_before = any(op[0] != "heur" and op[0] not in MUTATORS for op in hist[:max(last, 0)])
     res.features += [f"heur_runs:{sum(1 for op in hist if op[0] == 'heur')}", f"query_before_heur:{query_before}", f"instance_changed:{changed}"]
     if sa != sb:
         res.fail(f"{form}:heuristic-outcome-depends-on-queries", f"with the earlier queries the heuristic ended '{sa}', without them '{sb}'")
@@ -405,6 +484,7 @@ def run_case(case, drv):
         if res.failures:
             break
     res.nontrivial = query_before and changed
-    correspond_cache(res, drv, case)
+    if not case.get("mutators"):
+        correspond_cache(res, drv, case)
     correspond_flags(res, drv, case)
     return res
